@@ -538,6 +538,61 @@ def c_point_intersects_special(rng):
     return out
 
 
+@check(('C02', 'C05'), 'pointarray.intersects-near-points')
+def c_point_intersects_near(rng):
+    """a point or multipoint shape made of points equal to, or a hair / a metre away from, points of the array:
+    equality of points is exact, at every magnitude"""
+    import math
+    base = rng.choice([0.0, 1.0, 2.0e6, -6.0e6, 2.0 ** -30, 1024.0])
+    step = rng.choice([1.0, 2.0 ** -30, 2.0 ** -20]) if abs(base) < 1e5 else rng.choice([1.0, 2.0, 2.0 ** -10])
+    pts = [[base + step * rng.randint(-2, 2), -base + step * rng.randint(-2, 2)] for _ in range(rng.randint(1, 6))]
+    arr = gen.build('point', pts)
+
+    def near(p):
+        x, y = p
+        r = rng.random()
+        if r < 0.3:
+            return [x, y]
+        if r < 0.5:
+            return [math.nextafter(x, math.inf), y]
+        if r < 0.7:
+            return [x, math.nextafter(y, -math.inf)]
+        if r < 0.85:
+            return [x * (1 + 2.0 ** -20) if x else 2.0 ** -40, y]
+        return [x + step, y - step]
+    skind = rng.choice(['point', 'multipoint'])
+    if skind == 'point':
+        shape_el = near(rng.choice(pts))
+        shape = gen.scalar_cls_of('point')(np.asarray(shape_el, dtype='float64'))
+        members = [tuple(shape_el)]
+    else:
+        members = [tuple(near(rng.choice(pts))) for _ in range(rng.randint(1, 4))]
+        shape_el = [c for m in members for c in m]
+        shape = gen.scalar_cls_of('multipoint')(shape_el)
+    exp = [tuple(p) in members for p in pts]
+    recipe = {'kind': 'point', 'elements': pts, 'steps': []}
+    out = []
+    got = arr.intersects(shape)
+    if [bool(g) for g in got] != exp:
+        out.append(V(f'pointarray.intersects-near-points/{skind}/array-form', f'points {pts} shape {shape_el}: got '
+                     f'{[bool(g) for g in got]} expected {exp}', recipe, shape=[skind, shape_el]))
+        return out
+    perm = list(range(len(pts)))
+    rng.shuffle(perm)
+    inds = np.array(perm, dtype='int64')
+    gi = arr.intersects(shape, inds)
+    if [bool(x) for x in gi] != [exp[i] for i in perm]:
+        out.append(V(f'pointarray.intersects-near-points/{skind}/inds-form', f'points {pts} shape {shape_el} inds {perm}',
+                     recipe, shape=[skind, shape_el]))
+    for i, p in enumerate(pts):
+        sc = arr[i].intersects(shape)
+        if bool(sc) != exp[i]:
+            out.append(V(f'pointarray.intersects-near-points/{skind}/scalar-form', f'point {p} shape {shape_el}: scalar '
+                         f'{bool(sc)} expected {exp[i]}', recipe, shape=[skind, shape_el]))
+            break
+    return out
+
+
 # ------------------------------------------------------------------ C16
 
 @check(('C16', 'C17'), 'array.derived-elements')
